@@ -350,7 +350,8 @@ def run(tier: str) -> CheckResult:
     for part in parallel(_mc_and_replay, jobs):
         res.merge(part)
     # T: "whenever no task is running every worker is back at full capacity" on the sim corpus
-    from . import simprops
+    from . import simmc, simprops
 
+    simmc.check("C04", tier, res)
     simprops.check("C04", tier, res)
     return res
